@@ -4,3 +4,4 @@ CONSTANTS
   MaxC = 3
   ChainCs = {0, 2, 3}
   Triples = FALSE
+  TripleCs = {0}
